@@ -21,7 +21,7 @@ fn step_subtract() { let (a, b, c, d): (f64, f64, f64, f64) = (kani::any(), kani
 #[kani::proof]
 fn step_negative() { let (a, b): (f64, f64) = (kani::any(), kani::any());
     match ok(eval(Node::Negative(num(a, b)))) { Some(v) => assert!(v.re.to_bits() == (a.to_bits() ^ (1u64 << 63)) && v.im.to_bits() == (b.to_bits() ^ (1u64 << 63)), "sign flip of both parts"), None => assert!(false, "never Err") } }
-// @obligation owners=C08 fn=eval_complex::ast::eval/Multiply tier=thorough
+// @obligation owners=C08 fn=eval_complex::ast::eval/Multiply tier=open
 #[kani::proof]
 fn step_multiply_re() { let (a, b, c, d): (f64, f64, f64, f64) = (kani::any(), kani::any(), kani::any(), kani::any());
     match ok(eval(Node::Multiply(num(a, b), num(c, d)))) { Some(v) => assert!(same(v.re, a * c - b * d), "re((a+bi)(c+di)) = ac - bd"), None => assert!(false, "never Err") } }
